@@ -72,6 +72,11 @@ def Book.setTok (b : Book) (t : MTok) : Book := { b with toks := b.toks.map (fun
 def Book.kill (b : Book) (name why : String) : Book :=
   { b with toks := b.toks.map (fun x => if x.name == name && !x.dead then { x with dead := true, why := why } else x) }
 
+/-- revocation by request id: every access token of the grant, and its live refresh token -/
+def Book.killGrant (b : Book) (gid : Nat) (why : String) (alsoRefresh : Bool) : Book :=
+  { b with toks := b.toks.map (fun x =>
+      if x.gid == gid && !x.dead && (x.kind == 'A' || alsoRefresh) then { x with dead := true, why := why } else x) }
+
 def second : Nat := 1000000000
 def roundSec (t : Nat) : Nat := ((t + second / 2) / second) * second
 def addI (t : Nat) (d : Int) : Nat := (Int.ofNat t + d).toNat
@@ -262,7 +267,7 @@ def update (b : Book) (f : List String) (o : String) : Book :=
         let cl := b.client client
         let authed := match cl with | some c => (c.isPublic || cred == "1") && c.grants.contains "authorization_code" | none => false
         if authed then
-          let b := g.members.foldl (fun b n => b.kill n "C01") b
+          let b := b.killGrant g.gid "C01" true
           b.setGrant { g with replayed := true }
         else b
       else b
@@ -278,7 +283,7 @@ def update (b : Book) (f : List String) (o : String) : Book :=
           let rt := outField o "rt"
           -- rotation: the presented token and the access token issued alongside it are dead
           let b := b.setTok { t with usedRT := true, dead := true, why := if t.dead then t.why else "C04" }
-          let b := if t.sibling != "" then b.kill t.sibling "C04" else b
+          let b := b.killGrant g.gid "C04" false
           let atTok : MTok := { name := atk, kind := 'A', gid := g.gid, client := g.client,
                                 exp := some (roundSec (addI b.now (b.cfgNat "atLife"))), sibling := if rt == "?" then "" else rt }
           let rtExp := if b.cfgNat "rtLife" > -1 then some (roundSec (addI b.now (b.cfgNat "rtLife"))) else t.exp
@@ -289,7 +294,7 @@ def update (b : Book) (f : List String) (o : String) : Book :=
           let cl := b.client client
           let authed := match cl with | some c => (c.isPublic || cred == "1") && c.grants.contains "refresh_token" | none => false
           if authed then
-            let b := g.members.foldl (fun b n => b.kill n "C04") b
+            let b := b.killGrant g.gid "C04" true
             b.setGrant { g with reused := true }
           else b
         else b
@@ -300,8 +305,7 @@ def update (b : Book) (f : List String) (o : String) : Book :=
       let cl := b.client client
       let authed := match cl with | some c => c.isPublic || cred == "1" | none => false
       if k == "ok" && authed && sigMatches tok && client == t.client && !t.dead then
-        let b := b.kill t.name "C08"
-        if t.sibling != "" then b.kill t.sibling "C08" else b
+        b.killGrant t.gid "C08" true
       else b
   | _ => b
 where
